@@ -521,6 +521,95 @@ def build(ctx):
     inline['Calendar._populate'] = (m, m.func('Calendar._populate'))
     ctx.guarded('_populate', populate_section)
 
+    # ------------------------------------------------------------------ constructor: Calendar(key, holidays, weekend, t0, t1, adj)
+    def constructor_section():
+        """the real body of Calendar.__init__ for a plain key: on every path exactly one `super().__init__(...)` call whose keywords are exactly
+        weekend / holidays / key / t0 / t1 / adj, holding the statement's reading of the arguments (SPEC below).  as_list, date_range, zip, dict
+        are uninterpreted operations of their operands (pyvc/th_pandas.py), so the obligations are equations between the term the code builds
+        and the term the specification builds: a swapped / dropped / defaulted argument comes back sat.  Neither Dict, dictattr nor _calendar
+        defines __init__ / __new__ (syntactic obligation), so the call is dict.__init__(**keywords): the object holds exactly those items."""
+        from pyvc import front as _front
+        from pyvc import th_pandas as tp
+        from z3 import Const
+        SPEC = ("_t0, _t1 = date_range(TMIN if t0 is None else t0, TMAX if t1 is None else t1)\n"
+                "_we = [5, 6] if weekend is None else as_list(weekend)\n"
+                "_hs = as_list(holidays)\n"
+                "_hol = dict(zip(_hs, _hs))\n")
+        fdef = m.func('Calendar.__init__')
+        params = [a.arg for a in fdef.args.args]
+        if params != ['self', 'key', 'holidays', 'weekend', 't0', 't1', 'adj']:
+            raise SelectorError('Calendar.__init__ parameters are %s' % params)
+        old_meta = dict(ctx.default_meta)
+        ctx.default_meta = dict(old_meta, replay_without_model=True, abstract_model=True)
+        try:
+            # the bases' constructors
+            cdef = [n for n in m.tree.body if isinstance(n, ast.ClassDef) and n.name == 'Calendar']
+            bases = [ast.unparse(b) for b in cdef[0].bases] if cdef else []
+            own = []
+            for modname, cname in (('_dict', 'Dict'), ('_dictattr', 'dictattr'), ('_drange', '_calendar')):
+                mm = _front.module(modname)
+                cd = [n for n in mm.tree.body if isinstance(n, ast.ClassDef) and n.name == cname]
+                if not cd:
+                    raise SelectorError('class %s not found in %s' % (cname, modname))
+                own += ['%s.%s' % (cname, f.name) for f in cd[0].body if isinstance(f, ast.FunctionDef) and f.name in ('__init__', '__new__', '__init_subclass__')]
+            dbases = [ast.unparse(b) for n in _front.module('_dict').tree.body if isinstance(n, ast.ClassDef) and n.name == 'Dict' for b in n.bases]
+            abases = [ast.unparse(b) for n in _front.module('_dictattr').tree.body if isinstance(n, ast.ClassDef) and n.name == 'dictattr' for b in n.bases]
+            ctx.post('Calendar.__init__.super_init_is_the_dict_constructor', [],
+                     BoolVal(bases == ['Dict', '_calendar'] and dbases == ['dictattr'] and abases == ['dict'] and not own), kind='syntactic', replay=rp('constructor'))
+            KEY, HOL, WEK, A0, A1, ADJ, SELF = [Const('CTOR_' + n_, tp.PV) for n_ in ('KEY', 'HOL', 'WE', 'T0', 'T1', 'ADJ', 'SELF')]
+
+            class PlainKey:
+                def pre_call(self, ex, st, e):
+                    if isinstance(e.func, ast.Name) and e.func.id == 'isinstance' and len(e.args) == 2 and ast.unparse(e.args[0]) == 'key' \
+                            and ast.unparse(e.args[1]) in ('dict', 'Calendar'):
+                        ex.use('path precondition:the key passed to Calendar() is a plain key, not a dict or a Calendar object')
+                        return B(False)
+                    return NotImplemented
+
+                def name(self, ex, st, ident):
+                    if ident in ('TMAX', 'TMIN'):
+                        ex.use('model:TMIN / TMAX are opaque module constants')
+                        return tp.P(tp.GLOBAL(ident))
+                    return NotImplemented
+
+            th = tp.Pandas(m, repo=[])
+            ex = Exec(m, [PlainKey(), th, ConcreteStr(m), TypePreds()], name='Calendar.__init__')
+            ex.use('assumed contract:as_list / date_range / zip / dict are functions of their operands only (uninterpreted; as_list is under contract in C19)')
+            args = [tp.P(x) for x in (SELF, KEY, HOL, WEK, A0, A1, ADJ)]
+            outs = tp.run_def(ex, State(), fdef, args)
+            ctx.absorb(ex)
+            ctx.record_function(m, 'Calendar.__init__', fdef, ex.stmts_executed, excluded=['key given as a dict or a Calendar object (copy branches): bounded only'])
+            inits = [e for e in th.events if e['kind'] == 'mcall' and e['name'] == '__init__']
+            sup = [e for e in th.events if e['kind'] == 'fcall' and e['name'] == 'super']
+            rets = [o for o in outs if o.kind == 'return']
+            ctx.post('Calendar.__init__.never_raises_for_a_plain_key', [], BoolVal(len(rets) == len(outs) and len(outs) >= 1), kind='safety', replay=rp('constructor'))
+            ctx.post('Calendar.__init__.one_super_init_call_per_path', [], BoolVal(len(inits) == len(outs) == len(sup)), kind='syntactic', replay=rp('constructor'))
+            for k_, e in enumerate(inits):
+                kw = e['kwargs']
+                recv_ok = e['recv'].kind == 'pv' and not e['args']
+                ctx.post('Calendar.__init__.stores_exactly_the_six_items.%d' % k_, [],
+                         BoolVal(recv_ok and sorted(kw) == ['adj', 'holidays', 'key', 't0', 't1', 'weekend']), kind='syntactic', replay=rp('constructor'))
+                if not recv_ok or sorted(kw) != ['adj', 'holidays', 'key', 't0', 't1', 'weekend']:
+                    continue
+                st2 = State(); st2.pc = list(e['pc'])
+                st2.env = dict(key=tp.P(KEY), holidays=tp.P(HOL), weekend=tp.P(WEK), t0=tp.P(A0), t1=tp.P(A1), adj=tp.P(ADJ))
+                o2 = ex.run_block(st2, ast.parse(SPEC).body)
+                if len(o2) != 1 or o2[0].kind != 'next':
+                    raise OutOfSubset('constructor specification does not evaluate on one path')
+                env = o2[0].st.env
+                hy = ex.facts + tp.base_facts() + list(o2[0].st.pc)
+                pvt = lambda v: th.to_pv(ex, st2, v)      # noqa
+                ctx.post('Calendar.__init__.receiver_is_the_object_under_construction.%d' % k_, hy, e['recv'].t == tp.F('super', pvt(SV('func', None, name='Calendar')), SELF), replay=rp('constructor'))
+                ctx.post('Calendar.__init__.weekend_is_the_argument_as_a_list_default_sat_sun.%d' % k_, hy, pvt(kw['weekend']) == pvt(env['_we']), replay=rp('constructor'))
+                ctx.post('Calendar.__init__.holidays_are_exactly_the_argument_keyed_by_itself.%d' % k_, hy, pvt(kw['holidays']) == pvt(env['_hol']), replay=rp('constructor'))
+                ctx.post('Calendar.__init__.t0_t1_are_the_date_range_of_the_arguments_with_defaults.%d' % k_, hy,
+                         And(pvt(kw['t0']) == pvt(env['_t0']), pvt(kw['t1']) == pvt(env['_t1'])), replay=rp('constructor'))
+                ctx.post('Calendar.__init__.key_and_adj_stored_unchanged.%d' % k_, hy, And(pvt(kw['key']) == KEY, pvt(kw['adj']) == ADJ), replay=rp('constructor'))
+            ctx.cover('Calendar.__init__.default_weekend_reachable', [WEK == tp.NONEPV])
+        finally:
+            ctx.default_meta = old_meta
+    ctx.guarded('constructor', constructor_section)
+
     # ------------------------------------------------------------------ registry: calendar(key, holidays, weekend, t0, t1)
     def registry_section():
         from pyvc.th_lists import Val, NONEV, V
@@ -558,7 +647,7 @@ def build(ctx):
 
             def call(self, ex, st, e, fname, args, kwargs):
                 if fname == 'Calendar' and len(args) == 1 and set(kwargs) == {'holidays', 'weekend', 't0', 't1'} and all(x.kind == 'val' for x in args + list(kwargs.values())):
-                    ex.use('assumed contract:Calendar(key, holidays=h, weekend=w, t0=.., t1=..) is a calendar holding exactly the holidays h and weekend w (bounded-checked)')
+                    ex.use('callee contract:Calendar(key, holidays=h, weekend=w, t0=.., t1=..) is a calendar holding exactly the holidays h and weekend w (proved on the body of Calendar.__init__ in this module, section constructor)')
                     c = MK(args[0].t, kwargs['holidays'].t, kwargs['weekend'].t, kwargs['t0'].t, kwargs['t1'].t)
                     ex.fact(And(HOLS(c) == kwargs['holidays'].t, WKND(c) == kwargs['weekend'].t))
                     return SV('calendar', c)
